@@ -220,7 +220,7 @@ def c_invmob(ctx, it, cfg):
 
 
 @REG.contract('Thermodynamics/mobility-of-the-queried-phase', [TH + ':GeneralThermodynamics._interdiffusivitySingle', TH + ':GeneralThermodynamics._tracerDiffusivitySingle'],
-              configs=[dict(name=ph, phase=ph) for ph in ('FCC_A1', 'BCC_A2', None)])
+              configs=[dict(name=ph or 'default-phase', phase=ph) for ph in ('FCC_A1', 'BCC_A2', None)])
 def c_wiring(ctx, it, cfg):
     """interdiffusivity and tracer diffusivity of a phase are built from the same composition set, the chemical potentials of that equilibrium and the mobility functions OF THAT PHASE
     (=> the Darken relation proved above for Mobility.interdiffusivity / tracer_diffusivity carries over to the public getters)"""
